@@ -109,17 +109,21 @@ type hist struct {
 	params govv1.Params
 	fixed  bool // which key function the code under test implements (see M_Gov.keyfun)
 
-	props    map[uint64]*propInfo
-	steps    []string
-	log      []string
-	initBals string
-	initCust string
-	prev     *obsT
-	token    string
-	enabled0 bool
-	abt0     int64
-	nrcpt    int
-	halted   bool
+	props      map[uint64]*propInfo
+	steps      []string
+	log        []string
+	initBals   string
+	initParams string
+	initCust   string
+	prev       *obsT
+	token      string
+	enabled0   bool
+	abt0       int64
+	supply0    *big.Int
+	pool0      *big.Int
+	minted     *big.Int
+	nrcpt      int
+	halted     bool
 
 	maxOpenTypes    int
 	govSendExecuted bool
@@ -153,9 +157,11 @@ type obsT struct {
 	Active   []uint64
 	InactKey map[uint64][]int64 // queue key times (unix nanoseconds) per proposal id
 	ActKey   map[uint64][]int64
-	Stray    int   // deposit records of proposals that are not open
-	Parity   int64 // 1 iff the registered erc20 pair's flag differs from its initial value
-	ABT      int64 // crosschain eth AverageBlockTime
+	Stray    int      // deposit records of proposals that are not open
+	Parity   int64    // 1 iff the registered erc20 pair's flag differs from its initial value
+	ABT      int64    // crosschain eth AverageBlockTime
+	Supply   *big.Int // total FX supply, relative to the start, net of the harness's own mints
+	Pool     *big.Int // community pool FX (truncated), relative to the start
 }
 
 func rel(t time.Time) int64 { return t.Unix() - lib.GenesisTime.Unix() }
@@ -173,6 +179,14 @@ func (h *hist) fail(sig, what string) {
 		h.fails = append(h.fails, lib.Failure{Kind: "monitor", What: what, Sig: sig,
 			Replay: map[string]interface{}{"seed": h.seed, "history": h.idx, "class": h.class, "ops": append([]string{}, h.log...)}})
 	}
+}
+
+func (h *hist) supplyAndPool() (*big.Int, *big.Int) {
+	ctx := h.c.Ctx
+	sup := h.c.App.BankKeeper.GetSupply(ctx, denomFX).Amount.BigInt()
+	fp, err := h.c.App.DistrKeeper.FeePool.Get(ctx)
+	lib.Must(err)
+	return sup, fp.CommunityPool.AmountOf(denomFX).TruncateInt().BigInt()
 }
 
 func (h *hist) observe(res int) *obsT {
@@ -239,6 +253,9 @@ func (h *hist) observe(res int) *obsT {
 		}
 	}
 	o.ABT = int64(h.c.App.EthKeeper.GetParams(ctx).AverageBlockTime)
+	sup, pool := h.supplyAndPool()
+	o.Supply = new(big.Int).Sub(new(big.Int).Sub(sup, h.supply0), h.minted)
+	o.Pool = new(big.Int).Sub(pool, h.pool0)
 	lib.Must(gk.InactiveProposalsQueue.Walk(ctx, nil, func(k collections.Pair[time.Time, uint64], v uint64) (bool, error) {
 		o.Inactive = append(o.Inactive, v)
 		o.InactKey[v] = append(o.InactKey[v], k.K1().UnixNano())
@@ -290,7 +307,7 @@ func (o *obsT) coq(ids []int64) string {
 		}
 		return lib.List(s)
 	}
-	return fmt.Sprintf("mk_obs %s %s %s %s %s %s [%d; %d]", lib.Z(int64(o.Res)), lib.List(ps), zb(o.Gov), lib.List(bs), u(o.Inactive), u(o.Active), o.Parity, o.ABT)
+	return fmt.Sprintf("mk_obs %s %s %s %s %s %s [%d; %d; %s; %s]", lib.Z(int64(o.Res)), lib.List(ps), zb(o.Gov), lib.List(bs), u(o.Inactive), u(o.Active), o.Parity, o.ABT, zb(o.Supply), zb(o.Pool))
 }
 
 // ---------------------------------------------------------------- error classes
@@ -462,7 +479,21 @@ func newHist(seed int64, idx int, class string) *hist {
 	}
 	h.abt0 = int64(c.App.EthKeeper.GetParams(c.Ctx).AverageBlockTime)
 	h.fixed = detectKeyFun(h)
+	// no inflation in this chain: the supply then moves only by burns and the harness's own mints,
+	// the community pool only by governance (cancellation charges, executed spends)
+	mp, err := c.App.MintKeeper.Params.Get(c.Ctx)
+	lib.Must(err)
+	mp.InflationMax, mp.InflationMin, mp.InflationRateChange = sdkmath.LegacyZeroDec(), sdkmath.LegacyZeroDec(), sdkmath.LegacyZeroDec()
+	lib.Must(c.App.MintKeeper.Params.Set(c.Ctx, mp))
+	mt, err := c.App.MintKeeper.Minter.Get(c.Ctx)
+	lib.Must(err)
+	mt.Inflation, mt.AnnualProvisions = sdkmath.LegacyZeroDec(), sdkmath.LegacyZeroDec()
+	lib.Must(c.App.MintKeeper.Minter.Set(c.Ctx, mt))
 	lib.Must(c.NextBlock())
+	lib.Must(c.NextBlock())
+	h.minted = new(big.Int)
+	h.supply0, h.pool0 = new(big.Int), new(big.Int)
+	h.supply0, h.pool0 = h.supplyAndPool()
 	// initial facts for the model
 	o := h.observe(0)
 	var bs []string
@@ -471,6 +502,7 @@ func newHist(seed int64, idx int, class string) *hist {
 	}
 	h.initBals = lib.List(bs)
 	h.initCust = h.customCoq()
+	h.initParams = h.paramsCoq()
 	h.prev = o
 	return h
 }
@@ -544,6 +576,12 @@ func (h *hist) record(opCoq string, res int) *obsT {
 	return o
 }
 
+// effect tag of an executed community-pool spend: 10^40 + the amount in the deposit denomination
+func spendTag(fxAmount *big.Int) string {
+	base := new(big.Int).Exp(big.NewInt(10), big.NewInt(40), nil)
+	return base.Add(base, fxAmount).String()
+}
+
 func msgCoq(m mMsg) string {
 	sp := make([]string, len(m.Spend))
 	for i, s := range m.Spend {
@@ -579,7 +617,7 @@ func (h *hist) buildMsgs(kind string, info *propInfo) ([]sdk.Msg, []mMsg) {
 		for _, c := range coins {
 			sp = append(sp, [2]string{denomIDs[c.Denom], c.Amount.String()})
 		}
-		act := fmt.Sprintf("AOk %d", tag)
+		act := "AOk " + spendTag(coins.AmountOf(denomFX).BigInt())
 		if !ok {
 			act = "AFail"
 		}
@@ -731,7 +769,7 @@ func (h *hist) opSubmitEGF(proposer int64, reqFX, amt *big.Int) {
 		info.Types, info.URLs, info.AllEGF = []int{tyEGF}, []string{typeURL[tyEGF]}, true
 		coins := sdk.NewCoins(sdk.NewCoin(denomFX, sdkmath.NewIntFromBigInt(reqFX)))
 		return []sdk.Msg{&distrtypes.MsgCommunityPoolSpend{Authority: h.gov, Recipient: rc.String(), Amount: coins}},
-			[]mMsg{{Type: tyEGF, Spend: [][2]string{{"0", reqFX.String()}}, Act: "AOk 1"}}
+			[]mMsg{{Type: tyEGF, Spend: [][2]string{{"0", reqFX.String()}}, Act: "AOk " + spendTag(reqFX)}}
 	})
 }
 
@@ -748,7 +786,7 @@ func (h *hist) opSubmitSpend(proposer int64, coins sdk.Coins, amt *big.Int) {
 			sp = append(sp, [2]string{denomIDs[c.Denom], c.Amount.String()})
 		}
 		return []sdk.Msg{&distrtypes.MsgCommunityPoolSpend{Authority: h.gov, Recipient: rc.String(), Amount: coins}},
-			[]mMsg{{Type: tyEGF, Spend: sp, Act: "AOk 1"}}
+			[]mMsg{{Type: tyEGF, Spend: sp, Act: "AOk " + spendTag(coins.AmountOf(denomFX).BigInt())}}
 	})
 }
 
@@ -789,7 +827,7 @@ func (h *hist) opSubmitWith(kind string, proposer int64, amt *big.Int, expedited
 	for i, m := range mm {
 		ms[i] = msgCoq(m)
 	}
-	opc := fmt.Sprintf("OSubmit %d %d %s %s %s %s %s", h.now(), proposer, lib.List(ms), zb(amt), lib.Bool(expedited), lib.Bool(valid), lib.Bool(badDenom))
+	opc := fmt.Sprintf("GOp (OSubmit %d %d %s %s %s %s %s)", h.now(), proposer, lib.List(ms), zb(amt), lib.Bool(expedited), lib.Bool(valid), lib.Bool(badDenom))
 	h.logf("submit kind=%s types=%v by=%d deposit=%s expedited=%v badDenom=%v -> id=%d err=%v", kind, info.URLs, proposer, amt, expedited, badDenom, id, err)
 	h.stats["submit:"+kind]++
 	if err == nil {
@@ -816,7 +854,7 @@ func (h *hist) opDeposit(pid uint64, who int64, amt *big.Int, badDenom bool) {
 		return err
 	})
 	code := errCode("deposit", err)
-	opc := fmt.Sprintf("ODeposit %d %d %d %s %s", h.now(), pid, who, zb(amt), lib.Bool(badDenom))
+	opc := fmt.Sprintf("GOp (ODeposit %d %d %d %s %s)", h.now(), pid, who, zb(amt), lib.Bool(badDenom))
 	h.logf("deposit id=%d by=%d amount=%s badDenom=%v -> err=%v", pid, who, amt, badDenom, err)
 	h.stats["deposit"]++
 	if err == nil {
@@ -854,7 +892,7 @@ func (h *hist) opVote(pid uint64, who int64, opts [][2]string, weighted bool) {
 	for i, ow := range opts {
 		ps[i] = lib.Pair(ow[0], ow[1])
 	}
-	opc := fmt.Sprintf("OVote %d %d %s %s", pid, who, lib.List(ps), lib.Bool(weighted))
+	opc := fmt.Sprintf("GOp (OVote %d %d %s %s)", pid, who, lib.List(ps), lib.Bool(weighted))
 	h.logf("vote id=%d by=%d opts=%v weighted=%v -> err=%v", pid, who, opts, weighted, err)
 	h.stats["vote"]++
 	o := h.record(opc, code)
@@ -867,7 +905,7 @@ func (h *hist) opCancel(pid uint64, who int64) {
 		return err
 	})
 	code := errCode("cancel", err)
-	opc := fmt.Sprintf("OCancel %d %d %d", h.now(), pid, who)
+	opc := fmt.Sprintf("GOp (OCancel %d %d %d)", h.now(), pid, who)
 	h.logf("cancel id=%d by=%d -> err=%v", pid, who, err)
 	h.stats["cancel"]++
 	o := h.record(opc, code)
@@ -880,10 +918,10 @@ func (h *hist) opCustom(authorized bool, key int, cp *fxgovtypes.CustomParams) {
 		auth = h.keys[11].Acc().String()
 	}
 	req := &fxgovtypes.MsgUpdateCustomParams{Authority: auth, MsgUrl: typeURL[key]}
-	opc := fmt.Sprintf("ORemoveCustom %s %d", lib.Bool(authorized), key)
+	opc := fmt.Sprintf("GOp (ORemoveCustom %s %d)", lib.Bool(authorized), key)
 	if cp != nil {
 		req.CustomParams = *cp
-		opc = fmt.Sprintf("OSetCustom %s %d (%s)", lib.Bool(authorized), key, cpCoq(*cp))
+		opc = fmt.Sprintf("GOp (OSetCustom %s %d (%s))", lib.Bool(authorized), key, cpCoq(*cp))
 	}
 	err := h.c.Try(func(ctx sdk.Context) error {
 		_, err := h.ms.UpdateCustomParams(ctx, req)
@@ -899,9 +937,88 @@ func (h *hist) opCustom(authorized bool, key int, cp *fxgovtypes.CustomParams) {
 	h.monitor(o, "custom", err)
 }
 
+// governance Params replaced mid-history through the real (authority-guarded) MsgUpdateParams
+func (h *hist) opGovParams(authorized, valid bool, mutate func(p *govv1.Params)) {
+	p := h.params
+	p.MinDeposit = sdk.NewCoins(p.MinDeposit...)
+	p.ExpeditedMinDeposit = sdk.NewCoins(p.ExpeditedMinDeposit...)
+	mutate(&p)
+	if !valid {
+		d := *p.VotingPeriod + time.Hour
+		p.ExpeditedVotingPeriod = &d
+	}
+	auth := h.gov
+	if !authorized {
+		auth = h.keys[12].Acc().String()
+	}
+	err := h.c.Try(func(ctx sdk.Context) error {
+		_, err := h.ms.UpdateParams(ctx, &govv1.MsgUpdateParams{Authority: auth, Params: p})
+		return err
+	})
+	code := errCode("custom", err)
+	saved := h.params
+	h.params = p
+	opc := fmt.Sprintf("GSetParams %s %s %s", lib.Bool(authorized), lib.Bool(valid), h.paramsCoq())
+	h.params = saved
+	if err == nil {
+		h.params = p
+	}
+	h.logf("gov params authorized=%v valid=%v min=%s expmin=%s maxdep=%s voting=%s expvoting=%s quorum=%s initratio=%s depratio=%s cancel=%s/%q burn=%v/%v/%v -> err=%v",
+		authorized, valid, p.MinDeposit, p.ExpeditedMinDeposit, p.MaxDepositPeriod, p.VotingPeriod, p.ExpeditedVotingPeriod, p.Quorum,
+		p.MinInitialDepositRatio, p.MinDepositRatio, p.ProposalCancelRatio, p.ProposalCancelDest, p.BurnProposalDepositPrevote, p.BurnVoteQuorum, p.BurnVoteVeto, err)
+	h.stats["govparams"]++
+	o := h.record(opc, code)
+	h.monitor(o, "govparams", err)
+}
+
+func (h *hist) genGovParams() {
+	r := h.r
+	dur := func(d time.Duration) *time.Duration { return &d }
+	h.opGovParams(!r.Chance(12), !r.Chance(10), func(p *govv1.Params) {
+		for n := 1 + r.Intn(3); n > 0; n-- {
+			switch r.Intn(8) {
+			case 0:
+				mind := []int64{10_000, 5_000, 1_000, 20_000}[r.Intn(4)]
+				p.MinDeposit = sdk.NewCoins(lib.FX(mind))
+				p.ExpeditedMinDeposit = sdk.NewCoins(lib.FX(mind * int64(2+r.Intn(3))))
+			case 1:
+				p.VotingPeriod = dur([]time.Duration{14 * 24 * time.Hour, 3 * 24 * time.Hour, 12 * time.Hour, 30 * 24 * time.Hour}[r.Intn(4)])
+				if *p.ExpeditedVotingPeriod >= *p.VotingPeriod {
+					p.ExpeditedVotingPeriod = dur(2 * time.Hour)
+				}
+			case 2:
+				p.ExpeditedVotingPeriod = dur([]time.Duration{24 * time.Hour, 2 * time.Hour, 30 * time.Minute}[r.Intn(3)])
+				if *p.ExpeditedVotingPeriod >= *p.VotingPeriod {
+					p.ExpeditedVotingPeriod = dur(*p.VotingPeriod / 2)
+				}
+			case 3:
+				p.MaxDepositPeriod = dur([]time.Duration{14 * 24 * time.Hour, 2 * 24 * time.Hour, 6 * time.Hour}[r.Intn(3)])
+			case 4:
+				p.Quorum = []string{"0.4", "0.334", "0.1", "0.75", "0", "1"}[r.Intn(6)]
+			case 5:
+				p.BurnProposalDepositPrevote, p.BurnVoteQuorum, p.BurnVoteVeto = r.Chance(50), r.Chance(50), r.Chance(50)
+			case 6:
+				p.MinInitialDepositRatio = []string{"0", "0.25", "0.1"}[r.Intn(3)]
+				p.MinDepositRatio = []string{"0.01", "0", "0.05"}[r.Intn(3)]
+			default:
+				p.ProposalCancelRatio = []string{"0.5", "0", "1", "0.333333333333333333"}[r.Intn(4)]
+				switch r.Intn(3) {
+				case 0:
+					p.ProposalCancelDest = authtypes.NewModuleAddress(distrtypes.ModuleName).String()
+				case 1:
+					p.ProposalCancelDest = h.keys[15].Acc().String()
+				default:
+					p.ProposalCancelDest = ""
+				}
+			}
+		}
+	})
+}
+
 func (h *hist) opMint(who int64, amt *big.Int) {
 	h.c.Mint(h.keys[who].Acc(), sdk.NewCoin(denomFX, sdkmath.NewIntFromBigInt(amt)))
-	opc := fmt.Sprintf("OBank %d %s", who, zb(amt))
+	h.minted.Add(h.minted, amt)
+	opc := fmt.Sprintf("GOp (OBank %d %s)", who, zb(amt))
 	h.logf("bank credit acct=%d amount=%s", who, amt)
 	o := h.record(opc, 0)
 	h.monitor(o, "bank", nil)
@@ -948,8 +1065,12 @@ func (h *hist) opEndBlock(dt time.Duration) {
 	custBefore := h.customMap()
 	err := h.c.NextBlockAfter(dt)
 	t := rel(h.c.Time)
-	opc := fmt.Sprintf("OEndBlock %d (%s)", t, stk)
+	opc := fmt.Sprintf("GOp (OEndBlock %d (%s))", t, stk)
 	h.logf("end block at t=%d (dt=%s) -> err=%v", t, dt, err)
+	if os.Getenv("C15_DEBUG") != "" {
+		sup, pool := h.supplyAndPool()
+		h.logf("   supply=%s pool=%s minted=%s gov=%s acct11=%s burnprevote=%v", sup, pool, h.minted, h.c.App.BankKeeper.GetAllBalances(h.c.Ctx, h.govAcc), h.c.App.BankKeeper.GetBalance(h.c.Ctx, h.keys[11].Acc(), denomFX), h.params.BurnProposalDepositPrevote)
+	}
 	h.stats["endblock"]++
 	if err != nil {
 		h.halted = true
@@ -1927,7 +2048,11 @@ func (h *hist) run(nops int) {
 				h.genExpeditedEnd()
 			}
 		case x < 80:
-			h.opMint(int64(10+r.Intn(6)), fxAmt(int64(1+r.Intn(1000))))
+			if r.Chance(70) {
+				h.genGovParams()
+			} else {
+				h.opMint(int64(10+r.Intn(6)), fxAmt(int64(1+r.Intn(1000))))
+			}
 		default:
 			h.genEndBlock()
 		}
@@ -1957,7 +2082,7 @@ func (h *hist) paramsCoq() string {
 }
 
 func (h *hist) caseCoq() string {
-	return fmt.Sprintf("mk_gov_case %s %s %s %s %d\n   [%s]", lib.Bool(h.fixed), h.paramsCoq(), h.initBals, h.initCust, h.abt0, strings.Join(h.steps, ";\n    "))
+	return fmt.Sprintf("mk_gov_case %s %s %s %s %d\n   [%s]", lib.Bool(h.fixed), h.initParams, h.initBals, h.initCust, h.abt0, strings.Join(h.steps, ";\n    "))
 }
 
 // ---------------------------------------------------------------- main
